@@ -8,6 +8,8 @@ import QbeeModel.Model.Instr
 import QbeeModel.Model.Module
 import QbeeModel.Model.Layout
 import QbeeModel.Model.ExprC
+import QbeeModel.Model.FloatInst
+import QbeeModel.Model.ExprSem
 /-
   Line-protocol driver for the executable models.  One request per line, one
   answer per line.  Unknown or malformed requests answer `bad-op`; the models
@@ -315,6 +317,86 @@ def handleCExpr (r : List String) : String :=
     | some t, none => "nocode " ++ tyTxt t
   | _ => "bad-op"
 
+def parseCell (t : String) : Option (Arith.Cell Float) :=
+  match t.toList with
+  | 'i' :: r => (String.ofList r).toInt?.map (Arith.Cell.int .i)
+  | 'l' :: r => (String.ofList r).toInt?.map (Arith.Cell.int .l)
+  | 's' :: r => (String.ofList r).toNat?.map fun b => Arith.Cell.flt .s (Float.ofBits b.toUInt64)
+  | 'd' :: r => (String.ofList r).toNat?.map fun b => Arith.Cell.flt .d (Float.ofBits b.toUInt64)
+  | 't' :: r => (decStr (String.ofList r)).map Arith.Cell.str
+  | _ => none
+
+def encCellA : Arith.Cell Float → String
+  | .int .i n => s!"i{n}"
+  | .int _ n => s!"l{n}"
+  | .flt .s x => s!"s{x.toBits.toNat}"
+  | .flt _ x => s!"d{x.toBits.toNat}"
+  | .str s => "t" ++ encStr s
+
+def encRes : Arith.Res (Arith.Cell Float) → String
+  | .ok c => "ok " ++ encCellA c
+  | .trap c => "trap " ++ c
+  | .host c => "host " ++ c
+
+def parseBinOp : String → Option Arith.BinOp
+  | "add" => some .add | "sub" => some .sub | "mul" => some .mul | "div" => some .div | "idiv" => some .idiv
+  | "mod" => some .mod | "exp" => some .exp | "and" => some .and | "or" => some .or | "xor" => some .xor
+  | "eqv" => some .eqv | "imp" => some .imp | "cmp" => some .cmp | _ => none
+
+def parseUnOp : String → Option Arith.UnOp
+  | "neg" => some .neg | "not" => some .not | "eq" => some .eq | "ne" => some .ne | "lt" => some .lt
+  | "gt" => some .gt | "le" => some .le | "ge" => some .ge | "abs" => some .abs | "sign" => some .sign
+  | "cint" => some .cint | "clng" => some .clng | "int" => some .int | _ => none
+
+def handleArith : List String → Option String
+  | ["b", op, a, b] => do
+      let op ← parseBinOp op; let a ← parseCell a; let b ← parseCell b
+      pure (encRes (Arith.binop Arith.floatOps op a b))
+  | ["u", op, a] => do
+      let op ← parseUnOp op; let a ← parseCell a
+      pure (encRes (Arith.unop Arith.floatOps op a))
+  | ["c", src, dst, a] => do
+      let src ← parseTy src; let dst ← parseTy dst; let a ← parseCell a
+      pure (encRes (Arith.conv Arith.floatOps src dst a))
+  | ["mk", t, "I", n] => do
+      let t ← parseTy t; let n ← n.toInt?
+      pure (encRes (Arith.mk Arith.floatOps t (.int n)))
+  | ["mk", t, "F", b] => do
+      let t ← parseTy t; let b ← b.toNat?
+      pure (encRes (Arith.mk Arith.floatOps t (.flt (Float.ofBits b.toUInt64))))
+  | _ => none
+
+/-- concrete trees: `A <cell>` | `B op a b` | `U op a` -/
+partial def parseCE : List String → Option (ExprSem.CE Float × List String)
+  | "A" :: c :: r => do let c ← parseCell c; pure (.leaf c, r)
+  | "B" :: op :: r => do
+      let op ← op.toNat?
+      let (a, r1) ← parseCE r
+      let (b, r2) ← parseCE r1
+      pure (.bin op a b, r2)
+  | "U" :: op :: r => do
+      let op ← op.toNat?
+      let (a, r1) ← parseCE r
+      pure (.un op a, r1)
+  | _ => none
+
+def handleRefEval (r : List String) : String :=
+  match parseCE r with
+  | some (e, []) =>
+    match ExprC.ty e.erase with
+    | none => "reject"
+    | some _ =>
+      let ref := ExprSem.refEval Arith.floatOps e
+      let viaCode := match ExprSem.compileC e with
+        | some code => (match ExprSem.runC Arith.floatOps code [] with
+          | .ok [v] => encRes (.ok v)
+          | .ok _ => "host stack"
+          | .trap c => "trap " ++ c
+          | .host c => "host " ++ c)
+        | none => "nocode"
+      encRes ref ++ " | " ++ viaCode
+  | _ => "bad-op"
+
 def handle (toks : List String) : String :=
   match toks with
   | "print" :: r =>
@@ -401,6 +483,8 @@ def handle (toks : List String) : String :=
   | ["module", hex] => handleModule hex
   | "layout" :: r => (handleLayout r).getD "bad-op"
   | "cexpr" :: r => handleCExpr r
+  | "arith" :: r => (handleArith r).getD "bad-op"
+  | "refeval" :: r => handleRefEval r
   | ["uscan", f] =>
     match decStr f with
     | some f => match Using.scanFmt f with
